@@ -7,6 +7,8 @@ From SqlModel Require Import Base PyStr Re MinWidth Lexer CaseDefs WordsDefs Reg
      RegionExamples NameWordsDefs.
 From SqlModel.Gen Require Import Atoms CaseTabs KwTabs Rules.
 From SqlModel.Inst Require Import Cur WordsCur WordsFin Words NameWordsInst.
+From SqlModel Require SwallowDefs.
+From SqlModel.Inst Require C14Swallow.
 
 Local Open Scope N_scope.
 
@@ -114,6 +116,35 @@ Theorem C14_dollar_case_refuted :
        <> Some (Emit [Literal], (3 + length body + 3)%nat).
 Proof. exact dollar_case_refuted. Qed.
 Print Assumptions C14_dollar_case_refuted.
+
+(* ---- from the text, not from the opener: which rules can run OVER an opener -------------------------- *)
+(* the rules of the regenerated table whose match can contain a quote character, with the characters such a match
+   can start with: the region rules (starting at their own opener) and the TZCast rule; the latter is pinned *)
+Theorem C14_swallowers_pinned :
+  SwallowDefs.swallow_tab 0 Rules.sql_regex
+  = [(0, [35; 45]%N); (1, [47]%N); (2, [35; 45]%N); (3, [47]%N); (9, [96]%N); (10, [180]%N); (11, [36]%N);
+     (25, [39]%N); (26, [34]%N); (27, [34]%N); (28, [91]%N); (44, [65; 87; 97; 119]%N)]%nat.
+Proof. exact C14Swallow.swallowers_pinned. Qed.
+Definition C14_pin_tzcast := C14Swallow.pin_tzcast.
+(* x at time zone 'a;b' : the literal is part of the Keyword.TZCast token (finding C14-tzcast-literal) *)
+Theorem C14_single_quoted_after_tzcast_refuted :
+  match cur_lex C14Swallow.w_tzcast with
+  | Ok toks => existsb (fun tk => ttype_eqb (fst tk) [Literal; String; Single]) toks = false
+               /\ existsb (fun tk => ttype_eqb (fst tk) [Keyword; TZCast]
+                                     && text_eqb (snd tk) (skipn 2 C14Swallow.w_tzcast)) toks = true
+  | Err _ => False
+  end.
+Proof. exact C14Swallow.single_quoted_after_tzcast_refuted. Qed.
+(* 1+/*c*/2 : the operator rule runs over the comment opener (finding C14-operator-glued-comment) *)
+Theorem C14_comment_after_operator_refuted :
+  match cur_lex C14Swallow.w_op_comment with
+  | Ok toks => existsb (fun tk => tin (fst tk) [Comment]) toks = false
+               /\ existsb (fun tk => ttype_eqb (fst tk) [Operator] && text_eqb (snd tk) [43; 47]%N) toks = true
+  | Err _ => False
+  end.
+Proof. exact C14Swallow.comment_after_operator_refuted. Qed.
+Print Assumptions C14_swallowers_pinned.
+Print Assumptions C14_single_quoted_after_tzcast_refuted.
 
 (* ================================================================================================
    dictionary words
